@@ -240,3 +240,347 @@ Section Agreement.
     intros c Hc. symmetry. apply Hagree. apply He2. exact Hc.
   Qed.
 End Agreement.
+
+(** *** When the passes in front of the search succeed *)
+Lemma has_dup_NoDup l : has_dup l = false <-> NoDup l.
+Proof.
+  induction l as [|x l IH]; cbn; [split; [constructor|reflexivity]|].
+  rewrite orb_false_iff, IH, mem_str_false_In. split.
+  - intros [H1 H2]. constructor; assumption.
+  - intro H. inversion H; subst. split; assumption.
+Qed.
+
+Definition front_ok (g : grammar) (sh : shell) : Prop :=
+  NoDup (plain_names g) /\ unknown_shell g = false /\ non_command_for_shell g = false
+  /\ NoDup (shell_names g sh)
+  /\ forall n nsp rhs, In (NontermDef n nsp None rhs) g -> In n (shell_names g sh) ->
+                       is_command rhs = true.
+
+Lemma get_fallback_specs_commands sp ds : forall acc fs,
+  get_fallback_specs sp ds acc = Ok fs ->
+  forall n nsp rhs, In (n, nsp, None, rhs) ds -> mem_str n sp = true -> is_command rhs = true.
+Proof.
+  induction ds as [|[[[n nsp] sh] rhs] r IH]; intros acc fs H n' nsp' rhs' Hin Hm; [destruct Hin|].
+  cbn [get_fallback_specs] in H. destruct sh as [s|].
+  - destruct Hin as [Hin|Hin]; [discriminate|]. eapply IH; eauto.
+  - destruct Hin as [Hin|Hin].
+    + inversion Hin; subst. rewrite Hm in H. destruct rhs'; try discriminate. reflexivity.
+    + destruct (mem_str n sp); [|eapply IH; eauto].
+      destruct rhs; try discriminate. destruct (assoc n acc) as [[c p]|]; [discriminate|].
+      eapply IH; eauto.
+Qed.
+
+Lemma front_ok_iff g sh :
+  (exists defs0 us fs, collect_plain_defs (all_defs g) [] = Ok defs0
+                       /\ get_specializations g sh = Ok (us, fs)) <-> front_ok g sh.
+Proof.
+  split.
+  - intros (defs0 & us & fs & Hc & Hs). unfold get_specializations in Hs.
+    destruct (get_user_specs sh (all_defs g) []) as [us'| | |] eqn:Hus; cbn in Hs; try discriminate.
+    destruct (get_fallback_specs (map fst us') (all_defs g) []) as [fs'| | |] eqn:Hfs; cbn in Hs;
+      try discriminate.
+    inversion Hs; subst us' fs'.
+    destruct (proj1 (get_user_specs_ok_iff g sh)) as (H1 & H2 & H3); [eexists; exact Hus|].
+    unfold front_ok. repeat split; auto.
+    + apply has_dup_NoDup. apply (collect_plain_defs_no_dup g defs0 Hc).
+    + apply has_dup_NoDup. exact H3.
+    + intros n nsp rhs Hin Hn. apply in_all_defs in Hin.
+      eapply get_fallback_specs_commands; [exact Hfs|exact Hin|].
+      apply mem_str_In. rewrite (us_keys_shell_names _ _ _ Hus). exact Hn.
+  - intros (Hp & H1 & H2 & Hsn & Hcmd).
+    destruct (duplicate_plain_collect g) as [defs0 Hc]; [apply has_dup_NoDup; exact Hp|].
+    destruct (proj2 (get_user_specs_ok_iff g sh)) as [us Hus].
+    { repeat split; auto. apply has_dup_NoDup. exact Hsn. }
+    destruct (get_fallback_specs_ok (map fst us) (all_defs g) []) as [fs Hfs].
+    + rewrite <- plain_names_all_defs. apply has_dup_NoDup. exact Hp.
+    + intros x _ [].
+    + intros n nsp rhs Hin Hm. apply in_all_defs in Hin. apply mem_str_In in Hm.
+      rewrite (us_keys_shell_names _ _ _ Hus) in Hm. eapply Hcmd; eauto.
+    + exists defs0, us, fs. split; [exact Hc|]. unfold get_specializations. rewrite Hus. cbn.
+      rewrite Hfs. reflexivity.
+Qed.
+
+(** *** Lookups and membership *)
+Lemma plain_definition_some_in g x rhs :
+  plain_definition g x = Some rhs -> exists nsp, In (NontermDef x nsp None rhs) g.
+Proof.
+  induction g as [|s g IH]; cbn; [discriminate|].
+  destruct s as [n sp e|n sp [[shn shsp]|] r].
+  - intro H. destruct (IH H) as [nsp Hin]. eauto.
+  - intro H. destruct (IH H) as [nsp Hin]. eauto.
+  - destruct (String.eqb n x) eqn:E.
+    + apply String.eqb_eq in E. subst. intro H. inversion H; subst. eauto.
+    + intro H. destruct (IH H) as [nsp Hin]. eauto.
+Qed.
+
+Lemma shell_definition_some_in g sh x rhs :
+  shell_definition g sh x = Some rhs ->
+  exists nsp shn shsp, In (NontermDef x nsp (Some (shn, shsp)) rhs) g /\ is_shell shn sh = true.
+Proof.
+  induction g as [|s g IH]; cbn; [discriminate|].
+  destruct s as [n sp e|n sp [[shn shsp]|] r].
+  - intro H. destruct (IH H) as (nsp & a & b & Hin & Hs). eauto 10.
+  - destruct (String.eqb n x && is_shell shn sh) eqn:E.
+    + apply andb_true_iff in E. destruct E as [E1 E2]. apply String.eqb_eq in E1. subst.
+      intro H. inversion H; subst. eauto 10.
+    + intro H. destruct (IH H) as (nsp & a & b & Hin & Hs). eauto 10.
+  - intro H. destruct (IH H) as (nsp & a & b & Hin & Hs). eauto 10.
+Qed.
+
+Lemma shell_definition_in g sh x nsp shn shsp rhs :
+  NoDup (shell_names g sh) -> In (NontermDef x nsp (Some (shn, shsp)) rhs) g ->
+  is_shell shn sh = true -> shell_definition g sh x = Some rhs.
+Proof.
+  induction g as [|s g IH]; intros Hnd Hin Hs; [destruct Hin|].
+  destruct s as [n sp e|n sp [[shn' shsp']|] r].
+  - destruct Hin as [Hin|Hin]; [discriminate|]. cbn in *. apply IH; assumption.
+  - unfold shell_names in Hnd. cbn [flat_map] in Hnd. fold (shell_names g sh) in Hnd.
+    cbn [shell_definition]. destruct Hin as [Hin|Hin].
+    + inversion Hin; subst. rewrite String.eqb_refl, Hs. reflexivity.
+    + destruct (String.eqb n x && is_shell shn' sh) eqn:E.
+      * apply andb_true_iff in E. destruct E as [E1 E2]. apply String.eqb_eq in E1. subst n.
+        rewrite E2 in Hnd. cbn in Hnd. inversion Hnd; subst. exfalso. apply H1.
+        unfold shell_names. apply in_flat_map. eexists. split; [exact Hin|]. cbn. rewrite Hs. left. reflexivity.
+      * apply IH; [|exact Hin|exact Hs]. destruct (is_shell shn' sh); [|exact Hnd].
+        cbn in Hnd. inversion Hnd; assumption.
+  - destruct Hin as [Hin|Hin]; [discriminate|]. cbn in *. apply IH; assumption.
+Qed.
+
+Lemma shell_names_in g sh x :
+  In x (shell_names g sh) <-> shell_definition g sh x <> None.
+Proof.
+  unfold shell_names. induction g as [|s g IH]; cbn; [split; [tauto|congruence]|].
+  destruct s as [n sp e|n sp [[shn shsp]|] r]; cbn; try exact IH.
+  rewrite in_app_iff, IH. destruct (is_shell shn sh) eqn:Es; cbn.
+  - destruct (String.eqb n x) eqn:E; cbn.
+    + apply String.eqb_eq in E. subst. split; [discriminate|auto].
+    + apply String.eqb_neq in E. split; [intros [[H|[]]|H]; [congruence|exact H]|auto].
+  - rewrite andb_false_r. tauto.
+Qed.
+
+(** *** Definition order *)
+Section Permuted.
+  Variable builtins : shell -> list (string * string).
+  Variable sh : shell.
+  Variable g g' : grammar.
+  Hypothesis Hperm : Permutation g g'.
+  Hypothesis Hcv : call_variants g = call_variants g'.
+
+  Lemma plain_names_perm : Permutation (plain_names g) (plain_names g').
+  Proof. unfold plain_names. apply Permutation_flat_map. exact Hperm. Qed.
+
+  Lemma shell_names_perm : Permutation (shell_names g sh) (shell_names g' sh).
+  Proof. unfold shell_names. apply Permutation_flat_map. exact Hperm. Qed.
+
+  Lemma existsb_perm (P : statement -> bool) : existsb P g = existsb P g'.
+  Proof.
+    destruct (existsb P g') eqn:E.
+    - apply existsb_exists in E. destruct E as [x [Hx Hp]]. apply existsb_exists. exists x.
+      split; [|exact Hp]. eapply Permutation_in; [apply Permutation_sym; exact Hperm|exact Hx].
+    - destruct (existsb P g) eqn:E'; [|reflexivity]. apply existsb_exists in E'.
+      destruct E' as [x [Hx Hp]]. rewrite <- E. symmetry. apply existsb_exists. exists x.
+      split; [|exact Hp]. eapply Permutation_in; [exact Hperm|exact Hx].
+  Qed.
+
+  Lemma front_ok_perm : front_ok g sh -> front_ok g' sh.
+  Proof.
+    intros (Hp & H1 & H2 & Hsn & Hcmd). unfold front_ok. repeat split.
+    - eapply Permutation_NoDup; [apply plain_names_perm|exact Hp].
+    - unfold unknown_shell in *. rewrite <- existsb_perm. exact H1.
+    - unfold non_command_for_shell in *. rewrite <- existsb_perm. exact H2.
+    - eapply Permutation_NoDup; [apply shell_names_perm|exact Hsn].
+    - intros n nsp rhs Hin Hn. apply (Hcmd n nsp rhs).
+      + eapply Permutation_in; [apply Permutation_sym; exact Hperm|exact Hin].
+      + eapply Permutation_in; [apply Permutation_sym; apply shell_names_perm|exact Hn].
+  Qed.
+
+  Lemma plain_definition_perm x : NoDup (plain_names g) -> plain_definition g x = plain_definition g' x.
+  Proof.
+    intro Hnd. assert (Hnd' : NoDup (plain_names g')) by (eapply Permutation_NoDup; [apply plain_names_perm|exact Hnd]).
+    destruct (plain_definition g x) as [rhs|] eqn:E.
+    - apply plain_definition_some_in in E. destruct E as [nsp Hin]. symmetry.
+      apply (plain_definition_in g' x nsp rhs); [apply has_dup_NoDup; exact Hnd'|].
+      eapply Permutation_in; [exact Hperm|exact Hin].
+    - destruct (plain_definition g' x) as [rhs'|] eqn:E'; [|reflexivity]. exfalso.
+      assert (Hin : In x (plain_names g')) by (apply plain_names_pd; congruence).
+      eapply Permutation_in in Hin; [|apply Permutation_sym; apply plain_names_perm].
+      apply plain_names_pd in Hin. congruence.
+  Qed.
+
+  Lemma shell_definition_perm x :
+    NoDup (shell_names g sh) -> shell_definition g sh x = shell_definition g' sh x.
+  Proof.
+    intro Hnd. assert (Hnd' : NoDup (shell_names g' sh)) by (eapply Permutation_NoDup; [apply shell_names_perm|exact Hnd]).
+    destruct (shell_definition g sh x) as [rhs|] eqn:E.
+    - apply shell_definition_some_in in E. destruct E as (nsp & shn & shsp & Hin & Hs). symmetry.
+      apply (shell_definition_in g' sh x nsp shn shsp rhs Hnd'); [|exact Hs].
+      eapply Permutation_in; [exact Hperm|exact Hin].
+    - destruct (shell_definition g' sh x) as [rhs'|] eqn:E'; [|reflexivity]. exfalso.
+      assert (Hin : In x (shell_names g' sh)) by (apply shell_names_in; congruence).
+      eapply Permutation_in in Hin; [|apply Permutation_sym; apply shell_names_perm].
+      apply shell_names_in in Hin. congruence.
+  Qed.
+
+  Theorem definition_order v :
+    from_grammar builtins g sh = Ok v ->
+    exists v', from_grammar builtins g' sh = Ok v' /\ v_command v' = v_command v
+               /\ v_expr v' = v_expr v.
+  Proof.
+    intro H. rewrite from_grammar_named_eq in *. unfold from_grammar_named in *.
+    unfold cv_names in *. rewrite <- Hcv.
+    destruct (dedup_names [] _) as [|[command cspan] more]; [discriminate|].
+    destruct more; [|discriminate]. destruct (contains_char slash command); [discriminate|].
+    destruct (collect_plain_defs (all_defs g) []) as [defs0| | |] eqn:Hc; cbn [obind] in H; try discriminate.
+    destruct (get_specializations g sh) as [[us fs]| | |] eqn:Hs; cbn [obind fst snd] in H; try discriminate.
+    assert (Hf : front_ok g sh) by (apply front_ok_iff; eauto).
+    destruct (proj2 (front_ok_iff g' sh) (front_ok_perm Hf)) as (defs0' & us' & fs' & Hc' & Hs').
+    rewrite Hc', Hs'. cbn [obind fst snd].
+    destruct Hf as (Hp & _ & _ & Hsn & _).
+    eapply (back_end_agree builtins sh g g' defs0 defs0' us us' fs fs' Hc Hs Hc' Hs' (fun _ => True));
+      auto.
+    - intros x _. apply shell_definition_perm. exact Hsn.
+    - intros x _. apply plain_definition_perm. exact Hp.
+  Qed.
+End Permuted.
+
+(** *** Removing the definitions nobody refers to *)
+Definition remove_unused (g : grammar) : grammar :=
+  filter (fun s => match s with
+                   | NontermDef n _ _ _ => mem_str n (referred g)
+                   | CallVariant _ _ _ => true
+                   end) g.
+
+Section Filtered.
+  Variable P : statement -> bool.
+  Variable g : grammar.
+  Hypothesis Pcv : forall n sp e, P (CallVariant n sp e) = true.
+
+  Lemma call_variants_filter : call_variants (filter P g) = call_variants g.
+  Proof.
+    unfold call_variants. induction g as [|s l IH]; cbn; [reflexivity|].
+    destruct s as [n sp e|n sp sh rhs].
+    - rewrite Pcv. cbn. rewrite IH. reflexivity.
+    - destruct (P _); cbn; exact IH.
+  Qed.
+
+  Lemma NoDup_app_iff' {B} (a b : list B) :
+    NoDup (a ++ b) <-> NoDup a /\ NoDup b /\ (forall x, In x a -> ~ In x b).
+  Proof.
+    induction a as [|y a IH]; cbn.
+    - split; [intro H; repeat split; [constructor|exact H|intros x []]|tauto].
+    - split.
+      + intro H. inversion H; subst. apply IH in H3. destruct H3 as (Ha & Hb & Hd).
+        rewrite in_app_iff in H2. repeat split.
+        * constructor; tauto.
+        * exact Hb.
+        * intros x [Hx|Hx]; [subst; tauto|auto].
+      + intros (Ha & Hb & Hd). inversion Ha; subst. constructor.
+        * rewrite in_app_iff. intros [H|H]; [tauto|]. apply (Hd y); [left; reflexivity|exact H].
+        * apply IH. repeat split; auto.
+  Qed.
+
+  Lemma NoDup_flat_map_filter {B} (h : statement -> list B) (l : list statement) :
+    NoDup (flat_map h l) -> NoDup (flat_map h (filter P l)).
+  Proof.
+    induction l as [|s l IH]; cbn; [auto|]. intro H.
+    apply NoDup_app_iff' in H. destruct H as (Ha & Hb & Hd).
+    destruct (P s); [|auto]. cbn. apply NoDup_app_iff'. repeat split; auto.
+    intros x Hx Hx'. apply (Hd x Hx). apply in_flat_map in Hx'. destruct Hx' as [y [Hy Hx']].
+    apply filter_In in Hy. apply in_flat_map. exists y. tauto.
+  Qed.
+
+  Lemma existsb_filter_false (Q : statement -> bool) : existsb Q g = false -> existsb Q (filter P g) = false.
+  Proof.
+    intro H. destruct (existsb Q (filter P g)) eqn:E; [|reflexivity].
+    apply existsb_exists in E. destruct E as [x [Hx Hq]]. apply filter_In in Hx.
+    rewrite <- H. symmetry. apply existsb_exists. exists x. tauto.
+  Qed.
+
+  Lemma front_ok_filter sh : front_ok g sh -> front_ok (filter P g) sh.
+  Proof.
+    intros (Hp & H1 & H2 & Hsn & Hcmd). unfold front_ok. repeat split.
+    - unfold plain_names. apply NoDup_flat_map_filter. exact Hp.
+    - unfold unknown_shell. apply existsb_filter_false. exact H1.
+    - unfold non_command_for_shell. apply existsb_filter_false. exact H2.
+    - unfold shell_names. apply NoDup_flat_map_filter. exact Hsn.
+    - intros n nsp rhs Hin Hn. apply filter_In in Hin. apply (Hcmd n nsp rhs); [tauto|].
+      unfold shell_names in *. apply in_flat_map in Hn. destruct Hn as [y [Hy Hn]].
+      apply filter_In in Hy. apply in_flat_map. exists y. tauto.
+  Qed.
+
+  (** lookups of a name whose definitions are all kept *)
+  Lemma plain_definition_filter x :
+    (forall nsp sh rhs, P (NontermDef x nsp sh rhs) = true) ->
+    plain_definition (filter P g) x = plain_definition g x.
+  Proof.
+    intro Hk. induction g as [|s l IH]; cbn; [reflexivity|].
+    destruct s as [n sp e|n sp [[shn shsp]|] r]; cbn [plain_definition].
+    - rewrite Pcv. exact IH.
+    - destruct (P _); exact IH.
+    - destruct (String.eqb n x) eqn:E.
+      + apply String.eqb_eq in E. subst. rewrite Hk. cbn. rewrite String.eqb_refl. reflexivity.
+      + destruct (P _); cbn; rewrite ?E; exact IH.
+  Qed.
+
+  Lemma shell_definition_filter sh x :
+    (forall nsp s rhs, P (NontermDef x nsp s rhs) = true) ->
+    shell_definition (filter P g) sh x = shell_definition g sh x.
+  Proof.
+    intro Hk. induction g as [|s l IH]; cbn; [reflexivity|].
+    destruct s as [n sp e|n sp [[shn shsp]|] r]; cbn [shell_definition].
+    - rewrite Pcv. exact IH.
+    - destruct (String.eqb n x) eqn:E.
+      + apply String.eqb_eq in E. subst. rewrite Hk. cbn. rewrite String.eqb_refl. cbn.
+        destruct (is_shell shn sh); [reflexivity|exact IH].
+      + destruct (P _); cbn; rewrite ?E; exact IH.
+    - destruct (P _); exact IH.
+  Qed.
+End Filtered.
+
+Lemma referred_def g n nsp sh rhs c :
+  In (NontermDef n nsp sh rhs) g -> In c (all_refs rhs) -> In c (referred g).
+Proof.
+  intros Hin Hc. unfold referred. apply in_flat_map. eexists. split; [exact Hin|exact Hc].
+Qed.
+
+Theorem remove_unused_harmless builtins g sh v :
+  from_grammar builtins g sh = Ok v ->
+  exists v', from_grammar builtins (remove_unused g) sh = Ok v'
+             /\ v_command v' = v_command v /\ v_expr v' = v_expr v.
+Proof.
+  intro H. rewrite from_grammar_named_eq in *. unfold from_grammar_named in *.
+  set (P := fun s => match s with
+                     | NontermDef n _ _ _ => mem_str n (referred g)
+                     | CallVariant _ _ _ => true
+                     end).
+  assert (Pcv : forall n sp e, P (CallVariant n sp e) = true) by reflexivity.
+  assert (Hcv : call_variants (remove_unused g) = call_variants g).
+  { apply (call_variants_filter P g Pcv). }
+  unfold cv_names in *. rewrite Hcv.
+  destruct (dedup_names [] _) as [|[command cspan] more]; [discriminate|].
+  destruct more; [|discriminate]. destruct (contains_char slash command); [discriminate|].
+  destruct (collect_plain_defs (all_defs g) []) as [defs0| | |] eqn:Hc; cbn [obind] in H; try discriminate.
+  destruct (get_specializations g sh) as [[us fs]| | |] eqn:Hs; cbn [obind fst snd] in H; try discriminate.
+  assert (Hf : front_ok g sh) by (apply front_ok_iff; eauto).
+  destruct (proj2 (front_ok_iff (remove_unused g) sh) (front_ok_filter P g sh Hf))
+    as (defs0' & us' & fs' & Hc' & Hs').
+  rewrite Hc', Hs'. cbn [obind fst snd].
+  assert (Hkeep : forall x, In x (referred g) -> forall nsp s rhs, P (NontermDef x nsp s rhs) = true).
+  { intros x Hx nsp s rhs. cbn. apply mem_str_In. exact Hx. }
+  eapply (back_end_agree builtins sh g (remove_unused g) defs0 defs0' us us' fs fs' Hc Hs Hc' Hs'
+                         (fun x => In x (referred g))); auto.
+  - intros x Hx. symmetry. apply (shell_definition_filter P g Pcv sh x (Hkeep x Hx)).
+  - intros x Hx. symmetry. apply (plain_definition_filter P g Pcv x (Hkeep x Hx)).
+  - intros x rhs _ Hx c Hc0. apply plain_definition_some_in in Hx. destruct Hx as [nsp Hin].
+    eapply referred_def; eauto.
+  - intros c Hc0. rewrite expr0_refs in Hc0. unfold referred. apply in_flat_map in Hc0.
+    destruct Hc0 as [e [He Hc0]]. unfold call_exprs in He. apply in_flat_map in He.
+    destruct He as [s [Hs0 He]]. destruct s; [|destruct He]. destruct He as [He|[]]. subst e.
+    apply in_flat_map. eexists. split; [exact Hs0|exact Hc0].
+  - intros x y Hd. unfold depends in Hd.
+    destruct (plain_definition (remove_unused g) x) as [rhs|] eqn:Ex; [|discriminate].
+    apply andb_true_iff in Hd. destruct Hd as [Hy _]. apply mem_str_In in Hy.
+    apply plain_definition_some_in in Ex. destruct Ex as [nsp Hin]. apply filter_In in Hin.
+    destruct Hin as [Hin Hp]. cbn in Hp. apply mem_str_In in Hp. split; [exact Hp|].
+    eapply referred_def; eauto.
+Qed.
